@@ -90,6 +90,43 @@ def stragglers_then_failure(k, is_async):
     return msgs
 
 
+def failing_node_identity(k):
+    """the failing node is the SECOND use of a function / a node of a nested DAG, and its exception carries no
+    argument: the call raises tawazi's wrapper naming exactly that node's id, with the node's own exception as cause"""
+    class Bare(Exception):
+        def __init__(self):
+            super().__init__()
+
+    def check(x):
+        if x < 0:
+            raise Bare()
+        return x
+    cx = tawazi.xn(named(check, "sc_check%d" % k), resource=[Resource.thread, Resource.main_thread, Resource.async_thread][k % 3])
+
+    def twice(a, b):
+        return cx(a), cx(b)
+    d1 = tawazi.dag(named(twice, "sc_twice%d" % k), max_concurrency=2, is_async=bool(k % 2))
+
+    def inner(x):
+        return cx(x)
+    inner_dag = tawazi.dag(named(inner, "sc_idin%d" % k))
+
+    def outer(x):
+        return cx(1), inner_dag(x)
+    d2 = tawazi.dag(named(outer, "sc_idout%d" % k), max_concurrency=2, is_async=bool(k % 2))
+    msgs = []
+    for d, args, exp_id in ((d1, (1, -1), "sc_check%d<<1>>" % k), (d2, (-1,), "sc_idin%d.sc_check%d" % (k, k))):
+        st = in_thread((lambda d=d, args=args: asyncio.run(d(*args))) if k % 2 else (lambda d=d, args=args: d(*args)), 10)
+        if st[0] != "raise":
+            msgs.append("a call whose node %s fails gave %r" % (exp_id, st))
+            continue
+        e = st[1]
+        ok = type(e).__name__ == "TawaziBaseException" and ("ExecNode %s at " % exp_id) in str(e) and isinstance(e.__cause__, Bare)
+        if not ok and not isinstance(e, Bare):
+            msgs.append("node %s failed with an exception without arguments; the call raised %s: %s (cause %r) instead of tawazi's wrapper naming that node with the node's exception as cause" % (exp_id, type(e).__name__, str(e)[:120], e.__cause__))
+    return msgs
+
+
 # ------------------------------------------------------------------------------ C09: nested run-time calls and first concurrent awaits return
 def nested_runtime_call(k):
     """a node whose function calls ANOTHER DAG at run time (both DAGs have a setup node that has not run yet)"""
@@ -290,6 +327,9 @@ def run(pid, tier, seed, res):
     n = 2 if tier == "quick" else 8
     for k in range(n):
         if pid == "C14":
+            res.evaluations += 1
+            for msg in failing_node_identity(k):
+                res.hit("C14", "monitor", msg, dict(engine="scenario", kind="monitor", scenario="failing_node_identity", k=k))
             for fl in (False, True):
                 res.evaluations += 1
                 for msg in stragglers_then_failure(2 * k + int(fl), fl):
